@@ -135,7 +135,7 @@ FTags(c) == (IF c.unb THEN <<"one">> ELSE <<>>)
             \o (IF c.drift = 1 THEN (IF c.dim = 2 THEN <<"x", "y">> ELSE <<"x">>) ELSE <<>>)
             \o (IF c.ext # "none" THEN <<c.ext>> ELSE <<>>)
 
-ExtVal(tag, p) == CASE tag = "sq"  -> p[1] * p[1]
+ExtVal(tag, p) == CASE tag = "bowl" -> LET d == p[1] - 2 IN IF d * d > 9 THEN 9 ELSE d * d   \* bounded
                     [] tag = "alt" -> p[1] % 2
                     [] tag = "one" -> 1
 
@@ -203,7 +203,9 @@ Dot(x, y, n)   == SumTo([i \in 1..n |-> x[i] * y[i]], n)
 
 Rejected(c) ==
   [status |-> "Rejected", det |-> 0, dd |-> DD(c), field |-> <<>>, rawvar |-> <<>>, var |-> <<>>,
-   meanfield |-> <<>>, gmean |-> None, kmat |-> <<>>, rhs |-> <<>>, edc |-> <<>>, edt |-> <<>>,
+   meanfield |-> <<>>, gmean |-> None, kmat |-> <<>>, rhs |-> <<>>,
+   edc |-> IF c.ext = "none" THEN <<>> ELSE [i \in 1..Len(c.pos) |-> ExtVal(c.ext, c.pos[i])],
+   edt |-> IF c.ext = "none" THEN <<>> ELSE [k \in 1..Len(c.tgt) |-> ExtVal(c.ext, c.tgt[k])],
    merged |-> FALSE]
 
 (* every intermediate result is bound once (With); x(t) * det by Cramer's rule = cofactors * rhs *)
